@@ -584,6 +584,30 @@ func (histEngine) generate(property string, seed int64, index int, tier string) 
 			docA.Records = append(docA.Records, tr)
 		}
 	}
+	if property == "C11" && r.Chance(1, 10) {
+		// n records of equal byte length, alternating between LF and CRLF, separated by two blank lines that carry
+		// the line ending of the record before them; run with n CPUs, so that the chunk boundaries of a parser
+		// that cuts the text into n equal parts fall between those blank lines. Today's record is the last one.
+		n := r.Pick2([]int{2, 2, 3, 4})
+		docA = GDoc{FinalNewline: true}
+		first := r.Pick([]string{"\n", "\r\n"})
+		for k := 0; k < n; k++ {
+			day := base.AddDate(0, 0, k-n+1)
+			eol := first
+			if k%2 == 1 {
+				eol = map[string]string{"\n": "\r\n", "\r\n": "\n"}[first]
+			}
+			rec := GRecord{Y: day.Year(), M: int(day.Month()), D: day.Day(), Indent: "    ", EOL: eol, BlankAfter: []string{"", ""}}
+			rec.Date = fmtDate(rec.Y, rec.M, rec.D, false)
+			pad := 44 - (10 + len(eol) + 7 + len(eol))
+			rec.Entries = []GEntry{{Value: "1h", Summary: []string{strings.Repeat("x", pad)}}}
+			if k == n-1 {
+				rec.BlankAfter = nil
+			}
+			docA.Records = append(docA.Records, rec)
+		}
+		w.Cpus = n
+	}
 	if property == "C11" && r.Chance(1, 4) {
 		// a target that shows only SOME dimensions of style: today's record holds durations only (indentation and
 		// line ending are its own, clock convention / dash spacing / placeholder must come from the other records)
@@ -708,6 +732,17 @@ func (histEngine) generate(property string, seed int64, index int, tier string) 
 				op.Plan.WriteNth = 1
 				op.Plan.WriteFault = r.Pick([]string{"error_before", "error_after"})
 				op.Plan.WriteCut = r.Intn(4096)
+			case (k == 4 || k == 5 || k == 6) && op.Kind == "pause" && len(op.Steps) > 0:
+				// a transient I/O error at one of the later ticks of a running pause (the file is renamed away for
+				// a moment, a network drive hiccups), and time goes on afterwards: either the command ends with
+				// a failure there, or everything it writes later is complete again
+				if r.Chance(1, 2) {
+					op.Plan.ReadNth = r.Range(4, 9)
+				} else {
+					op.Plan.WriteNth = r.Range(2, 4)
+					op.Plan.WriteFault = "error_before"
+				}
+				op.Steps = append(op.Steps, TimeStep{AdvanceS: r.Range(125, 260)})
 			}
 		}
 		if op.Kind != "pause" && len(op.Argv) == 0 {
@@ -874,6 +909,13 @@ func genC17(r *Rng, seed int64, index int, tier string) *Scenario {
 		minute = base.Hour()*60 + base.Minute()
 		y, m, d = base.Year(), int(base.Month()), base.Day()
 	}
+	nowStep := 0
+	if minute == 1439 && r.Chance(1, 2) {
+		// the last second of the day, and time goes by between two readings of the clock: midnight passes while
+		// the command runs
+		nowStep = r.Pick2([]int{400, 700, 1100})
+		base = base.Add(time.Duration(59-base.Second()) * time.Second)
+	}
 	w.BaseUnix = base.Unix()
 	viaConfig := rounding != 0 && r.Chance(1, 3)
 	if viaConfig {
@@ -991,6 +1033,7 @@ func genC17(r *Rng, seed int64, index int, tier string) *Scenario {
 		if r.Chance(1, 4) {
 			op.ArgForm = r.Intn(32)
 		}
+		op.Plan.NowStepMs = nowStep
 		op.renderArgv()
 	}
 	op.Tape = r.Tape(16, 64)
